@@ -177,6 +177,12 @@ def handle (j : Json) : Json :=
       | none => Json.mkObj [("parsed", false)]
       | some t => Json.mkObj [("parsed", true), ("fields", Json.mkObj [("title", os t.title), ("body", os t.body), ("epic", os t.epic), ("state", os t.state),
           ("claim", os t.claim), ("result_path", os t.resultPath), ("result_summary", os t.resultSummary)])]
+  | "encode" =>
+    -- the bytes a batch of events is written as: one line per event, each under its own envelope time stamp
+    let evs := (arr j "events").map eventOf
+    let ets := strs j "ets"
+    let lines := (evs.zip ets).map fun p => Ergo.Codec.encodeEvent (fun _ => p.2) p.1 ++ [Storage.NL]
+    Json.mkObj [("hex", tohex lines.flatten)]
   | "codec" =>
     -- the line codec: classification of raw bytes, encoding of an event, time stamp text
     let classJson : LineClass → Json
